@@ -43,7 +43,7 @@ deriving Repr
 structure St where
   cb : Mgr CbRule CbSt := Mgr.empty
   flow : Mgr FlowRule FlowSt := Mgr.empty
-  now : Nat := 0
+  now : Nat := 1900000000000     -- every phase starts at the same virtual time
   -- oracle side
   phaseB : Bool := false
   cbRaw : List (Nat × List CbRule) := []       -- what the caller passed last for each resource (valid rules)
